@@ -34,7 +34,11 @@ type c14world struct {
 	closeFn  func()
 }
 
-func c14setup(nb int, existing int, perm []int) *c14world {
+// hostile branch names: they begin with characters of the "heads/" prefix, one is what is left of another
+// when those characters are trimmed ("data" -> "ta"), one is nested and consists of such characters only
+var c14hostileNames = []string{"data", "ta", "a/ds"}
+
+func c14setup(nb int, existing int, perm []int, hostile bool) *c14world {
 	w := &c14world{db: stores.NewMemStore(), faults: &stores.Faults{}, orig: map[string][]byte{}, staged: map[string][]byte{}, stagedT: map[string][]byte{}}
 	rs, _, closeFn := stores.NewMemRefStore()
 	w.rs, w.closeFn = rs, closeFn
@@ -47,6 +51,9 @@ func c14setup(nb int, existing int, perm []int) *c14world {
 	w.id = *id
 	for i := 0; i < nb; i++ {
 		b := fmt.Sprintf("br%d", i)
+		if hostile {
+			b = c14hostileNames[i]
+		}
 		w.branches = append(w.branches, b)
 		if existing&(1<<uint(i)) != 0 {
 			sum, err := commitTable(w.db, rs, b, bytes.Repeat([]byte{byte(0x30 + i)}, 16), nil, i)
@@ -204,6 +211,7 @@ func c14Body(c *mc.Ctx) {
 	perm := perms[c.ChooseDev(len(perms))]
 	// an ordinary commit lands on every branch the interrupted attempt had already moved, before the re-run
 	interleave := nb >= 2 && c.ChooseDev(2) == 1
+	hostile := c.ChooseDev(2) == 1 // branch names data, ta, a/ds instead of br0..br2
 	nops := 2
 	if c.Thorough() {
 		nops = 3
@@ -222,14 +230,14 @@ func c14Body(c *mc.Ctx) {
 		ops = append(ops, c14op{kind, mode, at})
 	}
 	c.Shard()
-	w := c14setup(nb, existing, perm)
+	w := c14setup(nb, existing, perm, hostile)
 	defer w.closeFn()
 	defer func() { verifrt.MapPerm = nil }()
 	var od []string
 	for _, o := range ops {
 		od = append(od, o.String())
 	}
-	desc := fmt.Sprintf("%d staged branches (existing mask %b, commit order %v); ops: %s; then a clean re-run of commit (ordinary commits on already moved branches first: %v)", nb, existing, perm, strings.Join(od, " ; "), interleave)
+	desc := fmt.Sprintf("%d staged branches (existing mask %b, commit order %v); ops: %s; then a clean re-run of commit (ordinary commits on already moved branches first: %v; branches named %v)", nb, existing, perm, strings.Join(od, " ; "), interleave, w.branches)
 	c.Logf("%s", desc)
 	committed := false
 	discarded := false
